@@ -892,5 +892,5 @@ def run(R):
                           "allocations above 256 MiB are refused (ASan max_allocation_size_mb), i.e. treated as allocation failures, not attempted",
                           "wall-clock bound %d ms per input stands for 'time proportional to the input' (inputs are < 10 MiB)" % TMO_MS,
                           "models: rd32/rd/EOF behaviour and 32-bit field ranges are parameters (hypotheses of the theorems)",
-                          "implementation-only (no model): the page-size history at the end of the harness script (cache.size 8, arch.page_size doubled, x16, "
+                          "implementation-only (no model): the page-size history at the end of the harness script (cache.size 8, arch.page_size x16, "
                           "halved, restored, reads after each), the legacy-lowcore s390x bases and the exhaustive pair corruption of small descriptors"]
